@@ -499,7 +499,7 @@ func runOrigin(c *Case, oc netio.Conn, obs *Obs, obsMu *sync.Mutex) {
 			return false
 		}
 		send := func(k, j int, b []byte) bool {
-			if c.OriginMode == "split" && len(b) > 3 {
+			if c.OriginMode == "split" && len(b) > 3 && c.Scripts[c.FirstFwd+k].Resps[j].Garbage == "" {
 				// several writes: one cut inside the head, one or two inside the body
 				rr := common.NewRng(c.SplitSeed ^ uint64(k*64+j+1)*0x9e3779b97f4a7c15)
 				headEnd := bytes.Index(b, []byte("\r\n\r\n"))
@@ -571,7 +571,10 @@ func runOrigin(c *Case, oc netio.Conn, obs *Obs, obsMu *sync.Mutex) {
 			}
 			if c.OriginMode == "coalesce" && k == 0 && c.OriginHold > 1 {
 				// ONE write with everything the origin has to say to the first OriginHold requests
-				type seg struct{ k, j, end int }
+				type seg struct {
+					k, j, end int
+					garbage   bool
+				}
 				var batch []byte
 				var segs []seg
 				for kk := 0; kk < c.OriginHold && c.FirstFwd+kk < len(c.Scripts); kk++ {
@@ -582,8 +585,13 @@ func runOrigin(c *Case, oc netio.Conn, obs *Obs, obsMu *sync.Mutex) {
 					}
 					obsMu.Unlock()
 					for jj, p := range c.Scripts[c.FirstFwd+kk].Resps {
+						start := len(batch)
 						batch = append(batch, p.wire(m)...)
-						segs = append(segs, seg{kk, jj, len(batch)})
+						if p.Garbage != "" { // a malformed response takes effect as soon as its first bytes are read
+							segs = append(segs, seg{kk, jj, start + 1, true})
+						} else {
+							segs = append(segs, seg{kk, jj, len(batch), false})
+						}
 					}
 				}
 				n, err := oc.Write(batch)
